@@ -66,8 +66,8 @@ func (n *UnaryExpressionNode) String() string {
 	parens := ExpressionPrecedence(n) > ExpressionPrecedence(n.Right)
 	if parens {
 		buff.WriteRune('(')
-	} else if len(op) > 0 && len(right) > 0 && right[0] == op[len(op)-1] {
-		// keep `- -a`, `+ +a`, `<< <<a` from being lexed as `--`, `++`, `<<<`
+	} else if len(op) > 0 && len(right) > 0 && (right[0] == op[len(op)-1] || (op == "!" && right[0] == '~')) {
+		// keep `- -a`, `+ +a`, `<< <<a`, `! ~a` from being lexed as `--`, `++`, `<<<`, `!~`
 		buff.WriteRune(' ')
 	}
 	buff.WriteString(right)
